@@ -1056,6 +1056,8 @@ class LazyGen:
 
 
 def _lazy_all(ctx, it):
+    if hasattr(it, '_all'):
+        return it._all(ctx)
     items = it.lazy_items(ctx) if isinstance(it, LazyGen) else ops.iterate(ctx, it)
     for x in items:
         if not ctx.branch(ops.truth(ctx, x)):
@@ -1064,6 +1066,8 @@ def _lazy_all(ctx, it):
 
 
 def _lazy_any(ctx, it):
+    if hasattr(it, '_any'):
+        return it._any(ctx)
     items = it.lazy_items(ctx) if isinstance(it, LazyGen) else ops.iterate(ctx, it)
     for x in items:
         if ctx.branch(ops.truth(ctx, x)):
